@@ -606,46 +606,49 @@ Proof.
   apply (ssorted_lb x l (conj H1 Hl) y). now apply In_smem.
 Qed.
 
+Lemma ssorted_apply_membership r es s :
+  ssorted (others (nd s)) -> ssorted (others (nd (apply_membership r es s))).
+Proof. intros H. destruct (apply_membership_others r es s) as [-> _]. now apply ssorted_fold. Qed.
+
+Lemma load_dump_others_sorted e cl s sn :
+  stored (sr (nd s)) = Some (Good sn) -> ssorted (s_cluster sn) -> ssorted (others (nd s)) ->
+  ssorted (others (nd (load_dump e cl s))).
+Proof.
+  intros Hs Hc Ho. unfold load_dump. rewrite Hs.
+  destruct (cl && _); [exact Ho|].
+  destruct (self_ver (nd s) <? s_ver sn); [exact Ho|].
+  cbv zeta.
+  match goal with |- context [update_cluster ?l ?s4] => set (s5 := s4); set (new := l) end.
+  assert (E5 : others (nd s5) = others (nd s)).
+  { subst s5. repeat (match goal with |- context [if ?b then _ else _] => destruct b end; cbn [nd upd others set]);
+      reflexivity. }
+  destruct (dyn (cf e)); [|now rewrite E5].
+  assert (Hn : ssorted (others (nd (update_cluster new s5)))).
+  { rewrite others_update_cluster. subst new. now apply ssorted_filter. }
+  match goal with |- context [if ?b then apply_membership _ _ _ else _] => destruct b end;
+    [now apply ssorted_apply_membership|exact Hn].
+Qed.
+
 Lemma load_dump_keeps e cl s : nkeeps0 (nd s) (nd (load_dump e cl s)).
 Proof.
-  unfold load_dump. destruct (stored (sr (nd s))) as [[sn|]|] eqn:Est; try apply nkeeps0_refl.
-  destruct (cl && _); [apply nkeeps_0, nkeeps_los; reflexivity|].
-  destruct (self_ver (nd s) <? s_ver sn); [apply nkeeps0_refl|].
-  set (s1 := upd (fun n => n <| hist := s_hist sn |> <| enabled_ver := s_ver sn |>) s).
-  set (s2 := if cl then s1 else _).
-  assert (E2 : nkeeps0 (nd s) (nd s2) /\ sr (nd s2) = sr (nd s) /\ others (nd s2) = others (nd s)).
-  { assert (T : nkeeps0 (nd s) (nd s1) /\ sr (nd s1) = sr (nd s) /\ others (nd s1) = others (nd s)).
-    { split; [apply nkeeps_0, nkeeps_los; reflexivity|split; reflexivity]. }
-    subst s2. destruct cl; [exact T|].
-    destruct (get_entries (log (nd s1)) (Some (eidx (s_e0 sn))) (Some 2) None) as [|a [|b [|c r]]] eqn:Eg;
-      try exact T.
-    destruct (_ && _); [|exact T].
-    split; [|split; reflexivity]. split.
-    - intros (H1 & H2 & H3). split; [|split; [exact H2|exact H3]]. cbn. unfold delete_to.
-      destruct (_ <? _); [exact H1|now apply consec_skipn].
-    - intros _. cbn. unfold delete_to. unfold get_entries in Eg. cbn in Eg.
-      destruct (eidx (s_e0 sn) <? first_idx (log (nd s))); [discriminate|].
-      intros Hnil. rewrite Hnil in Eg. cbn in Eg. discriminate. }
-  clearbody s2. destruct E2 as (E2 & Esr & Eoth).
-  set (s3 := if cl || negb _ then _ else s2).
-  assert (E3 : nkeeps0 (nd s) (nd s3) /\ sr (nd s3) = sr (nd s) /\ (node_wf (nd s) -> snap_wf sn)).
-  { assert (Hsn : node_wf (nd s) -> snap_wf sn).
-    { intros (_ & _ & (S1 & _)). exact (S1 _ Est). }
-    subst s3. destruct (cl || negb _); [|auto].
-    rewrite nd_upd. cbn [sr set]. split; [|auto]. split.
-    - intros Hwf. destruct (Hsn Hwf) as [Hi Hc]. destruct E2 as [E2 _]. destruct (E2 Hwf) as (H1 & H2 & H3).
-      unfold node_wf. cbn [log others sr set]. split; [cbn; auto|]. split; [exact H2|exact H3].
-    - intros _. cbn. discriminate. }
-  clearbody s3. destruct E3 as (E3 & Esr3 & Hsn).
-  set (s4 := upd (fun n => n <| applied := eidx (s_e1 sn) |>) s3).
-  assert (E4 : nkeeps0 (nd s) (nd s4)).
-  { eapply nkeeps0_trans; [exact E3|]. apply nkeeps_0. apply nkeeps_los. reflexivity. }
-  destruct (dyn (cf e)); [|exact E4].
+  destruct (stored (sr (nd s))) as [[sn|]|] eqn:Est.
+  2,3: unfold load_dump; rewrite Est; apply nkeeps0_refl.
+  destruct (cl && (eidx (s_e1 sn) <=? applied (nd s))) eqn:Eb.
+  { unfold load_dump. rewrite Est, Eb. apply nkeeps_0, nkeeps_los. reflexivity. }
+  destruct (self_ver (nd s) <? s_ver sn) eqn:Ev.
+  { unfold load_dump. rewrite Est, Eb, Ev. apply nkeeps0_refl. }
+  apply N.ltb_ge in Ev.
+  destruct (load_dump_loaded e cl s sn Est Eb Ev) as [Hl _].
   split.
-  - intros Hwf. destruct E4 as [E4 _]. specialize (E4 Hwf).
-    apply (nkeeps_update_cluster _ s4); [|exact E4].
-    apply ssorted_filter. apply (Hsn Hwf).
-  - intros Hne. destruct E4 as [_ E4]. rewrite (fr_update_cluster log) by frs. auto.
+  - intros (H1 & H2 & H3). pose proof H3 as (S1 & _). destruct (S1 _ Est) as [Hi Hc].
+    split; [|split].
+    + rewrite Hl. destruct (snap_kept sn (log (nd s))).
+      * unfold delete_to. destruct (_ <? _); [exact H1|now apply consec_skipn].
+      * cbn. auto.
+    + now apply (load_dump_others_sorted e cl s sn).
+    + rewrite (fr_load_dump sr) by frs. exact H3.
+  - intros _. rewrite Hl. destruct (snap_kept sn (log (nd s))) eqn:Ek; [|discriminate].
+    destruct (snap_kept_split sn _ Ek) as (pre & a & b & r & _ & Hd & _). rewrite Hd. discriminate.
 Qed.
 
 Lemma sr_wf_sub z z' :
@@ -778,10 +781,6 @@ Qed.
 
 Lemma first_idx_firstn k (l : list entry) : first_idx (firstn (Datatypes.S k) l) = first_idx l.
 Proof. destruct l; reflexivity. Qed.
-
-Lemma ssorted_apply_membership r es s :
-  ssorted (others (nd s)) -> ssorted (others (nd (apply_membership r es s))).
-Proof. intros H. destruct (apply_membership_others r es s) as [-> _]. now apply ssorted_fold. Qed.
 
 Lemma ae_regular_cases e from c prev new s :
   nd (ae_regular e from c prev new s) = nd s \/
@@ -1122,4 +1121,44 @@ Proof.
   split; [|split; [discriminate|vm_compute; reflexivity]].
   split; [cbn; auto|]. split; [cbn; lia|].
   cbn. repeat split; intros; try discriminate; contradiction.
+Qed.
+
+(* ------------------------------------------------------------------------------------------ *)
+(* C09_install_keeps_suffix: on a well-formed log the install keeps exactly the entries from the
+   snapshot's first entry on *)
+
+Lemma delete_to_filter l f :
+  consec l -> first_idx l <= f -> delete_to l f = filter (fun en => f <=? eidx en) l.
+Proof.
+  intros Hc Hf. unfold delete_to. destruct (f <? first_idx l) eqn:E; [apply N.ltb_lt in E; lia|].
+  rewrite (skipn_filter _ l Hc). apply filter_ext_in'. intros x _.
+  replace (first_idx l + N.of_nat (N.to_nat (f - first_idx l))) with f by lia. reflexivity.
+Qed.
+
+Lemma snap_kept_first sn l : snap_kept sn l = true -> first_idx l <= eidx (s_e0 sn).
+Proof.
+  unfold snap_kept, get_entries. destruct (eidx (s_e0 sn) <? first_idx l) eqn:E; [discriminate|].
+  intros _. now apply N.ltb_ge in E.
+Qed.
+
+Theorem install_keeps_suffix e from t c p n sn :
+  term n <= t -> recv_snapshot p (sr n) = Some (Good sn) ->
+  s_ver sn <= self_ver n -> applied n < eidx (s_e1 sn) ->
+  consec (log n) -> snap_kept sn (log n) = true ->
+  let n' := nd (on_message e from (AESnap t c p) n) in
+  log n' = filter (fun en => eidx (s_e0 sn) <=? eidx en) (log n) /\
+  (forall en, In en (log n) -> eidx (s_e1 sn) < eidx en -> In en (log n')) /\
+  applied n' = eidx (s_e1 sn).
+Proof.
+  intros Ht Hr Hv Ha Hc Hk. cbv zeta.
+  destruct (install_keeps_acknowledged e from t c p n sn Ht Hr Hv Ha) as (H1 & H2 & _ & _). cbv zeta in *.
+  destruct (H2 Hk) as (Hd & pre & a & b & r & Hl & Ea & Eb & Hl').
+  assert (Hf : log (nd (on_message e from (AESnap t c p) n)) =
+               filter (fun en => eidx (s_e0 sn) <=? eidx en) (log n)).
+  { rewrite Hd. apply delete_to_filter; [exact Hc|now apply snap_kept_first]. }
+  split; [exact Hf|]. split; [|exact H1].
+  intros en Hin Hgt. rewrite Hf. apply filter_In. split; [exact Hin|]. apply N.leb_le.
+  (* e0 sits right before e1 in the log *)
+  rewrite Hl in Hc. apply consec_app_inv in Hc. destruct Hc as [_ [Hab _]].
+  apply entry_eqb_eidx in Ea, Eb. lia.
 Qed.
